@@ -266,6 +266,8 @@ def h_blockmean_rejects(ctx):
         ctx.claim("uncertainty propagation without weights is rejected", True)
     for label, call in (
         ("two components, no weights", lambda: vd.BlockMean(shape=(1, 1), uncertainty=True).filter((e, n), (d, d))),
+        ("no weights spelt as one None per component (one component)", lambda: vd.BlockMean(shape=(1, 1), uncertainty=True).filter((e, n), d, (None,))),
+        ("no weights spelt as one None per component (two components)", lambda: vd.BlockMean(shape=(1, 1), uncertainty=True).filter((e, n), (d, d), (None, None))),
     ):
         try:
             call()
